@@ -218,3 +218,30 @@ Proof.
   pose proof (f_equal vy E) as Ey. cbn [vy] in Ey. pose proof PI_RGT_0.
   assert (Hp : / PI * PI = 1) by (field; lra). rewrite Hp in Ey. lra.
 Qed.
+
+(* ---------------------------------------------------------------- Wave 11: from_quat normalises *)
+Lemma from_quat_normalises :
+  (forall s u t, 0 < s -> qnorm2 u <> 0 -> pose_from_quat (qscale s u) t = pose_from_quat u t) /\
+  (forall s u t, s < 0 -> qnorm2 u <> 0 -> pose_from_quat (qscale s u) t = pose_from_quat u t) /\
+  (forall u t, qnorm2 u <> 0 -> rotation (pR (pose_from_quat u t))) /\
+  (forall u t, qnorm2 u <> 0 -> forall x,
+     inv_rotate_translate (pose_from_quat u t) (rotate_translate (pose_from_quat u t) x) = x /\
+     rotate_translate (pose_from_quat u t) (inv_rotate_translate (pose_from_quat u t) x) = x).
+Proof.
+  split; [intros s u t Hs Hu; apply from_quat_scale_invariant; [lra | assumption]|].
+  split; [intros s u t Hs Hu; apply from_quat_scale_invariant; [lra | assumption]|].
+  split; [intros u t Hu; destruct (from_quat_valid u t Hu) as [A B]; split; assumption|].
+  intros u t Hu x. apply pose_inverse_point. apply (from_quat_valid u t Hu).
+Qed.
+
+(* the quaternion -> matrix formula WITHOUT the normalisation is not a rotation for non-unit quaternions, and then
+   inverse (transpose) does not undo forward *)
+Lemma unnormalised_quat_matrix_refuted :
+  exists u, qnorm2 u <> 0 /\ ~ orthogonal (quat_mat u) /\
+    exists x, inv_rotate_translate (Pose (quat_mat u) vzero) (rotate_translate (Pose (quat_mat u) vzero) x) <> x.
+Proof.
+  exists (Q4 0 0 1 1). split; [unfold qnorm2; cbn [qx qy qz qw]; lra|]. split.
+  - intros H. apply orthogonal_components in H. destruct H as (E & _). unfold quat_mat in E. cbn [qx qy qz qw m00 m10 m20] in E. lra.
+  - exists (V3 1 0 0). unfold inv_rotate_translate, rotate_translate, quat_mat. cbn [pR pt qx qy qz qw].
+    la_unfold. intros E. injection E as E _ _. lra.
+Qed.
